@@ -6,6 +6,7 @@ import (
 	"slices"
 
 	"github.com/AdguardTeam/AdGuardHome/internal/aghhttp"
+	"github.com/AdguardTeam/golibs/errors"
 	"github.com/AdguardTeam/golibs/log"
 )
 
@@ -90,6 +91,15 @@ func (d *DNSFilter) handleRewriteDelete(w http.ResponseWriter, r *http.Request) 
 		Domain: jsent.Domain,
 		Answer: jsent.Answer,
 	}
+
+	// Normalize the entry in the same way the stored ones are.
+	err = entDel.normalize()
+	if err != nil {
+		aghhttp.Error(r, w, http.StatusBadRequest, "normalizing: %s", err)
+
+		return
+	}
+
 	arr := []*LegacyRewrite{}
 
 	func() {
@@ -138,7 +148,7 @@ func (d *DNSFilter) handleRewriteUpdate(w http.ResponseWriter, r *http.Request) 
 		Answer: updateJSON.Update.Answer,
 	}
 
-	err = rwAdd.normalize()
+	err = errors.Join(rwDel.normalize(), rwAdd.normalize())
 	if err != nil {
 		// Shouldn't happen currently, since normalize only returns a non-nil
 		// error when a rewrite is nil, but be change-proof.
